@@ -323,6 +323,37 @@ func (m *Monitor) after(o Op, p *preState, res perfResult) {
 			}
 		}
 	}
+	// ---- per account: MsgConvertDenom debits the sender exactly what it credits to the receiver (same token, another
+	// denomination); paying to another (unblocked) account cannot be refused for funds when paying to oneself is not ----
+	if o.K == "ConvertDenom" && m.w.isUserLike(o.A) && m.w.isUserLike(o.B) {
+		nd := len(w.allDenoms())
+		tot := func(cells []*big.Int) *big.Int {
+			sum := new(big.Int).Set(cells[nd+o.T])
+			for i, d := range w.allDenoms() {
+				if d.T == o.T {
+					sum.Add(sum, cells[i])
+				}
+			}
+			return sum
+		}
+		if res.ok {
+			dS := new(big.Int).Sub(tot(m.userCells(ctx, o.A)), tot(p.user[o.A]))
+			dR := new(big.Int).Sub(tot(m.userCells(ctx, o.B)), tot(p.user[o.B]))
+			wantS, wantR := big.NewInt(-o.X), big.NewInt(o.X)
+			if o.A == o.B {
+				wantS, wantR = big.NewInt(0), big.NewInt(0)
+			}
+			if dS.Cmp(wantS) != 0 || dR.Cmp(wantR) != 0 {
+				m.fail("C08:convert-denom:per-account", fmt.Sprintf("%s: the sender's holdings of %s changed by %s (expected %s), the receiver's by %s (expected %s)", o.Coq(), w.Toks[o.T].Symbol, dS, wantS, dR, wantR))
+			}
+		} else if o.A != o.B && errClass(res.err) == "insufficient" {
+			self := o
+			self.B = o.A
+			if w.wouldSucceed(&self) {
+				m.fail("C08:convert-denom:receiver-leg-refused", fmt.Sprintf("%s is refused for insufficient funds (%v) although the same conversion paid to the sender itself goes through: the leg that hands the converted coins to the receiver draws on somebody else's balance", o.Coq(), res.err))
+			}
+		}
+	}
 	// ---- per account: an executed inbound bridge call whose EVM part succeeded credits exactly the bridged amounts to the
 	// designated receiver (the sender's own account under the send-call-to memo marker, `to` otherwise) and to nobody else
 	// (the `local` monitor above: `to` is not named under the marker) ----
